@@ -174,3 +174,20 @@ func runLimitBatches(ps []int, comps []int, nears []int, maxL int, rows []int) [
 	}
 	return out
 }
+
+// tallRunBatches: H-1 flat rows (each coded as one run that reaches the line end: a stream of
+// 1 bits) followed by a row that starts with the outlier (run of length 0, interruption at once)
+// - long all-ones stretches in front of the longest Golomb prefixes, for every bit phase.
+func tallRunBatches(ps []int, widths []int, nears []int, maxH int) []*imgCase {
+	var out []*imgCase
+	for _, p := range ps {
+		for _, w := range widths {
+			for _, near := range nears {
+				for h := 2; h <= maxH; h++ {
+					out = append(out, &imgCase{Gen: "runlimit", W: w, H: h, C: 1, P: p, Sel: near, Aux: 0})
+				}
+			}
+		}
+	}
+	return out
+}
